@@ -150,7 +150,7 @@ pub fn sweep(
     let n_items = if len > opts.offset { (len - opts.offset + stride - 1) / stride } else { 0 };
     let next = AtomicU64::new(0);
     let stop = AtomicBool::new(false);
-    let chunk: u64 = 256;
+    let chunk: u64 = (n_items / (opts.threads as u64 * 16)).clamp(1, 256);
     let slots: Vec<(AtomicU64, AtomicU64)> = (0..opts.threads)
         .map(|_| (AtomicU64::new(u64::MAX), AtomicU64::new(0)))
         .collect();
